@@ -50,7 +50,11 @@ DerivedOK(e) ==
 NewFails(e) ==
     LET c == e.cls IN
     IF c \notin Classes THEN {"UNKNOWN-EVENT"}
-    ELSE (IF e.raw # Default(c) \/ ~GettersMatch(c, e.raw, e.get) THEN {"C12"} ELSE {})
+    ELSE (IF \/ Len(e.raw) < Table[c].size
+             \/ (Len(e.raw) >= Table[c].size /\ \E i \in ReservedBits(c) : HdrBits(c, e.raw)[i] # 0)      \* reserved bits zero
+             \/ ~GettersMatch(c, e.raw, e.get)
+          THEN {"C12"} ELSE {})
+   \cup (IF e.raw # Default(c) THEN {"NC"} ELSE {})
 
 LoadFails(e) ==
     LET c == e.cls IN
@@ -101,9 +105,29 @@ BuildFails(e) ==
                ELSE IF c = "cm" THEN RenderCm(hdr, a.desc, a.serial, a.hw, a.sw, a.vendor)
                ELSE RenderIf(hdr, a.ids, a.vendor)
         (* the DLC code is pinned down only for lengths that have one *)
-        rawOK == IF c \in {"can", "canfd"} /\ ~HasDlcCode(Len(a.data))
+        exact == IF c \in {"can", "canfd"} /\ ~HasDlcCode(Len(a.data))
                  THEN Len(e.raw) = Len(exp) /\ Blank(e.raw, 15) = Blank(exp, 15)
                  ELSE e.raw = exp
+        size  == Table[c].size
+        (* what the property states about the bytes: header fields set earlier preserved (the builder owns only the  *)
+        (* length / DLC bytes), inner structure consistent, strings NUL terminated and zero padded to even length,   *)
+        (* id list zero padded to even length, DLC code for lengths that have one, and the same bytes as a build of  *)
+        (* the same arguments on a fresh object with the same header                                                *)
+        owned == IF c \in {"can", "canfd"} THEN {15, 16} ELSE IF c = "lin" THEN {8} ELSE IF c = "eth" THEN {5, 6} ELSE {}
+        rawOK ==
+            /\ Len(e.raw) >= size
+            /\ \A i \in 1..size : i \notin owned => e.raw[i] = hdr[i]
+            /\ Consistent(c, e.raw)
+            /\ (c \in {"can", "canfd"} /\ HasDlcCode(Len(a.data)) => At(e.raw, 14) = DlcCode(Len(a.data)))
+            /\ (c = "cm" => LET w == CmFields(e.raw).fields IN
+                              /\ Len(w) = 5
+                              /\ \A x \in 1..4 : /\ w[x].len % 2 = 0 /\ w[x].len >= 1
+                                                  /\ \E z \in 0..(w[x].len - 1) :             \* content, then only zeros
+                                                        /\ \A y \in z..(w[x].len - 1) : At(e.raw, w[x].off + y) = 0
+                                                        /\ \A y \in 0..(z - 1) : At(e.raw, w[x].off + y) # 0)
+            /\ (c = "if" => LET w == IfFields(e.raw).fields IN
+                              Len(w) = 2 /\ (w[1].len % 2 = 1 => At(e.raw, w[1].off + w[1].len) = 0))
+            /\ (Has(e, "freshraw") => e.raw = e.freshraw)
         v == e.views
         viewsOK ==
             IF c \in {"can", "canfd", "lin", "eth"} THEN v.data = a.data /\ v.dataLength = Len(a.data)
@@ -123,7 +147,7 @@ BuildFails(e) ==
         (* acceptance is claimed for header states without bus-error flags and with enumerated fields in range *)
         clean == ~HasBusError(c, exp) /\ ~BadEnum(c, exp)
     IN (IF ~rawOK \/ ~viewsOK \/ (clean /\ ~accepted) \/ ~GettersMatch(c, e.raw, e.get) THEN {"C13"} ELSE {})
-  \cup (IF e.raw # exp THEN {"NC"} ELSE {})
+  \cup (IF ~exact THEN {"NC"} ELSE {})
 
 Unch == UNCHANGED << ep, live, st, cnt >>
 
